@@ -18,12 +18,15 @@ import AdaptaVerif.Lemmas.HyperTreeWfb
 import AdaptaVerif.Lemmas.HyperTreeJunctions
 import AdaptaVerif.Lemmas.HyperTreeMove
 import AdaptaVerif.Lemmas.HyperTreeJBridge
+import AdaptaVerif.Lemmas.HyperTreeCompose
+import AdaptaVerif.Lemmas.HyperTreeTerminalsB
 import AdaptaVerif.Lemmas.HyperTreeWitness
 import AdaptaVerif.Props.C12
 namespace AdaptaVerif.Props.C12Ops
 open AdaptaVerif.Model.HyperTree AdaptaVerif.Check.Tree AdaptaVerif.Spec.Tree
 open AdaptaVerif.Lemmas.HyperTree AdaptaVerif.Lemmas.HyperTreeGraph AdaptaVerif.Lemmas.HyperTreeRzle
 open AdaptaVerif.Lemmas.HyperTreeWfb AdaptaVerif.Lemmas.HyperTreeWitness AdaptaVerif.Lemmas.HyperTreeJunctions
+open AdaptaVerif.Lemmas.HyperTreeCompose AdaptaVerif.Lemmas.HyperTreeTerminals
 
 /-! ### the executable structure check is sound; the example trees satisfy the hypotheses -/
 
@@ -262,6 +265,28 @@ theorem removeZeroLengthEdges_junction_bookkeeping {f : Nat} {s : Imp} {self : N
   obtain ⟨_, hJ, hC, hN⟩ := rzleNode_jinv ht hi h
   exact ⟨hJ, hC, hJ.deleted, hN⟩
 
+/-- `removeZeroLengthEdges` keeps the TERMINAL SET.  Side condition `NoLeafZero`: no zero-length edge with
+    a non-fixed route ends at a leaf (i.e. no junction / bend sits exactly on a terminal).  It has to hold
+    only at the start: every contraction preserves it.  Then for every fuel, start node and ignored edge
+    the leaves of the result are exactly the leaves before (`LeavesAre … T` for the same `T`). -/
+theorem removeZeroLengthEdges_same_terminals {f : Nat} {s : Imp} {self : Nat} {ign : Option Nat} {s' : Imp}
+    (ht : Tree s.t) (hz : NoLeafZero s.t) (T : List Nat) (hT : LeavesAre s.t.graphV s.t.graphE T)
+    (h : rzleNode f s self ign = some s') :
+    Tree s'.t ∧ NoLeafZero s'.t ∧ LeavesAre s'.t.graphV s'.t.graphE T :=
+  rzleNode_terminals ht hz T hT h
+
+/-- the executable form of the side condition (evaluated by the driver on the real states) is sound -/
+theorem noLeafZerob_sound {t : HTree} (hw : WF t) (h : noLeafZerob t = true) : NoLeafZero t :=
+  AdaptaVerif.Lemmas.HyperTreeTerminals.noLeafZerob_sound hw h
+
+-- non-vacuity: two junctions joined by a zero-length connector, four terminals: the side condition holds
+-- (the traversal merges the junctions, the leaves stay [2,3,4,5]) …
+example : NoLeafZero exTwoJunctions := noLeafZerob_sound (wfb_sound (by decide)) (by decide +kernel)
+example : LeavesAre exTwoJunctions.graphV exTwoJunctions.graphE [2, 3, 4, 5] :=
+  (AdaptaVerif.Props.C12.leavesAre_iff _ _ _).mp (by decide)
+-- … and it fails on the witness `exStar` (junction on a terminal)
+example : noLeafZerob exStar = false := by decide +kernel
+
 /-- the executable bookkeeping check of the driver implies `JInv` -/
 theorem jinvb_sound {s : Imp} (h : jinvb s = true) : JInv s := AdaptaVerif.Lemmas.HyperTreeJunctions.jinvb_sound h
 
@@ -343,6 +368,33 @@ theorem improve_preserves_tree {s s' : Imp} (ht : Tree s.t) (h : Rewrites s s') 
     | rzle h1 => exact removeZeroLengthEdges_preserves_tree ih h1
     | move h1 => exact moveJunction_preserves_tree ih h1
     | shift n p => exact modNode_Tree _ _ _ (fun _ => rfl) (fun _ => rfl) ih
+
+/-- Composition with the junction bookkeeping.  `Good` = well-formed tree ∧ consistent bookkeeping (`JInv`)
+    ∧ fresh junction numbers.  Along any finite sequence of modelled rewrites `Good` is kept, and the
+    junctions are conserved (`Conserved`): a junction is attached to a node of the result or reported
+    deleted iff it was attached or reported deleted at the start or is newly reported in the new-junction
+    list; with `JInv.deleted` of the result: what is reported deleted is attached to nothing that survives,
+    and new-junction list ∪ survivors = the junctions attached to nodes of the result. -/
+theorem improve_junction_bookkeeping {s s' : Imp} (hg : Good s) (h : Rewrites s s') :
+    Good s' ∧ Conserved s s' := by
+  induction h with
+  | refl => exact ⟨hg, Conserved.refl _⟩
+  | step _ hr ih =>
+    obtain ⟨hg', hc'⟩ := ih
+    cases hr with
+    | rzle h1 =>
+      obtain ⟨a, b⟩ := rzleNode_good hg' h1
+      exact ⟨a, hc'.trans b⟩
+    | move h1 =>
+      obtain ⟨a, b⟩ := moveJunctionStep_good hg' h1
+      exact ⟨a, hc'.trans b⟩
+    | shift n p =>
+      obtain ⟨a, b⟩ := shift_good hg' n p
+      exact ⟨a, hc'.trans b⟩
+
+example : Good (mkImp exTwoJunctions [(1, 0), (2, 1)] [1] true) :=
+  ⟨tree_of_checks (by decide) (by decide), jinvb_sound (by decide), ⟨by decide, by decide⟩,
+   fun j hj => by cases hj⟩
 
 /-! ### side conditions: closed witnesses
 
